@@ -244,7 +244,16 @@ impl Database for GateDb {
         let mut keyed: Vec<(Vec<u8>, St::StorageKey)> =
             ids.iter().map(|i| (St::get_full_binary_key_id(i), i.clone())).collect();
         keyed.sort_by(|a, b| a.0.cmp(&b.0));
-        let detail = format!("[{}]", keyed.iter().map(|(k, _)| short_key(k)).collect::<Vec<_>>().join(","));
+        let detail = if keyed.len() > 10 {
+            format!(
+                "[{} keys: {},..,{}]",
+                keyed.len(),
+                keyed[..3].iter().map(|(k, _)| short_key(k)).collect::<Vec<_>>().join(","),
+                short_key(&keyed[keyed.len() - 1].0)
+            )
+        } else {
+            format!("[{}]", keyed.iter().map(|(k, _)| short_key(k)).collect::<Vec<_>>().join(","))
+        };
         self.gate(OpDesc { kind: "batch_get", detail, is_write: false, is_commit: false }).await?;
         let sorted: Vec<St::StorageKey> = keyed.into_iter().map(|(_, i)| i).collect();
         self.inner.batch_get::<St>(&sorted).await
@@ -441,6 +450,8 @@ impl Sched {
     /// Called from tokio's on_thread_park hook: no task is runnable.
     pub fn on_quiescent(&self) {
         let mut st = self.st.lock().unwrap();
+        // gates whose task was cancelled (receiver dropped) can never be released
+        st.parked.retain(|p| !p.tx.is_closed());
         match st.mode {
             Mode::Free => {}
             Mode::Draining => {
